@@ -118,9 +118,10 @@ class Taint:
                 f = t["f"]
                 if "path" in f:
                     add(dest, self.source_call(b, i, t))
-                    if self.passthrough(b, t):
+                    pt = self.passthrough(b, t)
+                    if pt:
                         for a in t["args"]:
-                            add(dest, {x for x in self.tags_of_op(b, st, a) if x[0] != "CLOSURE"})
+                            add(dest, {x for x in self.tags_of_op(b, st, a) if x[0] != "CLOSURE" and (pt is True or x[0].startswith(pt))})
                     # calls of closures: Fn::call(&closure, (args,))
                     if f.get("trait") in ("core::ops::Fn", "core::ops::FnMut", "core::ops::FnOnce") and t["args"]:
                         for tag in self.tags_of_op(b, st, t["args"][0]):
